@@ -370,6 +370,16 @@ func DeclaredTooLong(b []byte) bool {
 				pos++
 				return true
 			}
+			if major == 2 || major == 3 {
+				// indefinite-length string: definite chunks until break (the decoder of the dependency accepts them)
+				for pos < len(b) && b[pos] != 0xff {
+					if !walk(depth + 1) {
+						return false
+					}
+				}
+				pos++
+				return true
+			}
 			return false
 		default:
 			return false
@@ -415,4 +425,37 @@ func DeclaredTooLong(b []byte) bool {
 		}
 	}
 	return found
+}
+
+// DeclaredTooLongAnywhere is the structure-blind form of the same predicate: at SOME offset of b there is an
+// array / map head with a 4- or 8-byte count that exceeds the bytes that follow it. Used only to classify an
+// allocation that has already exceeded the bound, for inputs on which the structural walk above loses track
+// (a mutated input need not be well-formed up to the hostile head).
+func DeclaredTooLongAnywhere(b []byte) bool {
+	for i := 0; i < len(b); i++ {
+		major, info := b[i]>>5, b[i]&0x1f
+		if major != 4 && major != 5 {
+			continue
+		}
+		var arg uint64
+		switch info {
+		case 26:
+			if i+5 > len(b) {
+				continue
+			}
+			arg = uint64(binary.BigEndian.Uint32(b[i+1:]))
+			if arg > uint64(len(b)-i-5) && arg >= 1<<16 {
+				return true
+			}
+		case 27:
+			if i+9 > len(b) {
+				continue
+			}
+			arg = binary.BigEndian.Uint64(b[i+1:])
+			if arg > uint64(len(b)-i-9) && arg >= 1<<16 {
+				return true
+			}
+		}
+	}
+	return false
 }
